@@ -18,6 +18,7 @@ package checks
 import (
 	"fmt"
 	"reflect"
+	"sort"
 	"strconv"
 	"strings"
 )
@@ -32,6 +33,14 @@ type c03Ident struct {
 type c03IdentInfo struct {
 	refs   int
 	direct bool // found at least once in a judged location
+	held   bool // found at least once as the dynamic value of an interface
+}
+
+// c03Span is the backing array of a non-nil slice with capacity > 0.
+type c03Span struct {
+	lo, hi uintptr
+	typ    reflect.Type
+	held   bool
 }
 
 type c03Frame struct {
@@ -52,6 +61,9 @@ type c03Walk struct {
 	typedNilIface int
 	locations     int
 	feats         map[string]bool
+	spans         []c03Span
+	emptyMaps     int // non-nil maps without entries
+	spareSlices   int // zero-length slices with capacity > 0
 }
 
 func newC03Walk() *c03Walk {
@@ -59,7 +71,7 @@ func newC03Walk() *c03Walk {
 }
 
 // enter returns false when the identity was seen before (do not descend).
-func (w *c03Walk) enter(id c03Ident, direct bool) bool {
+func (w *c03Walk) enter(id c03Ident, direct, held bool) bool {
 	info := w.idents[id]
 	first := info == nil
 	if first {
@@ -69,6 +81,9 @@ func (w *c03Walk) enter(id c03Ident, direct bool) bool {
 	info.refs++
 	if direct {
 		info.direct = true
+	}
+	if held {
+		info.held = true
 	}
 	if idx, ok := w.onStack[id]; ok {
 		if id.kind == 's' {
@@ -132,7 +147,7 @@ func (w *c03Walk) walk(v reflect.Value, direct, held bool) {
 			w.feats["interface-holds:"+v.Type().String()] = true
 		}
 		id := c03Ident{kind: 'p', addr: v.Pointer(), typ: v.Type()}
-		if !w.enter(id, direct) {
+		if !w.enter(id, direct, held) {
 			return
 		}
 		w.push(id)
@@ -150,8 +165,16 @@ func (w *c03Walk) walk(v reflect.Value, direct, held bool) {
 			w.feats["interface-holds:"+v.Type().String()] = true
 		}
 		id := c03Ident{kind: 'm', addr: v.Pointer(), typ: v.Type()}
-		if !w.enter(id, direct) {
+		if !w.enter(id, direct, held) {
 			return
+		}
+		if v.Len() == 0 {
+			w.emptyMaps++
+			if held {
+				w.feats["empty-non-nil-map-in-interface"] = true
+			} else {
+				w.feats["empty-non-nil-map"] = true
+			}
 		}
 		w.push(id)
 		it := v.MapRange()
@@ -167,10 +190,23 @@ func (w *c03Walk) walk(v reflect.Value, direct, held bool) {
 			w.feats["interface-holds:"+v.Type().String()] = true
 		}
 		id := c03Ident{kind: 's', addr: v.Pointer(), typ: v.Type(), n: v.Len()}
+		if sz := v.Type().Elem().Size(); v.Cap() > 0 && sz > 0 {
+			// a real backing array (zero-capacity and zero-size-element
+			// slices all point at runtime.zerobase and are skipped)
+			w.spans = append(w.spans, c03Span{lo: v.Pointer(), hi: v.Pointer() + uintptr(v.Cap())*sz, typ: v.Type(), held: held})
+			if v.Len() == 0 {
+				w.spareSlices++
+				if held {
+					w.feats["zero-length-slice-with-capacity-in-interface"] = true
+				} else {
+					w.feats["zero-length-slice-with-capacity"] = true
+				}
+			}
+		}
 		if v.Len() == 0 {
 			return
 		}
-		if !w.enter(id, false) {
+		if !w.enter(id, false, false) {
 			return
 		}
 		w.push(id)
@@ -452,25 +488,78 @@ func (s *c03Iso) walk(e, a reflect.Value, direct bool) {
 	}
 }
 
-// c03NotFresh returns the first judged-location identity of out that also
-// occurs in one of the inputs, and how many interface-held-only ones do.
-func c03NotFresh(out *c03Walk, ins ...*c03Walk) (hit *c03Ident, heldOnly int) {
+// c03FreshHit is one class of non-fresh reference found in a result.
+type c03FreshHit struct {
+	Label  string // ptr, map, slice, each optionally -in-interface / -indirect
+	Detail string
+}
+
+// c03NotFresh compares the identity set of a result with those of every
+// input: pointers, maps (empty ones too: an empty map is a real allocation)
+// and slice backing arrays with capacity > 0, wherever they were found
+// (struct field, element, map value, interface payload, pointee). One hit per
+// label, sorted by label.
+func c03NotFresh(out *c03Walk, ins ...*c03Walk) []c03FreshHit {
+	hits := map[string]c03FreshHit{}
 	for id, info := range out.idents {
 		if id.kind == 's' {
 			continue
 		}
 		for _, in := range ins {
 			if _, ok := in.idents[id]; ok {
-				if info.direct {
-					if hit == nil {
-						c := id
-						hit = &c
-					}
-				} else {
-					heldOnly++
+				label := c03KindName(id.kind)
+				switch {
+				case info.direct:
+				case info.held:
+					label += "-in-interface"
+				default:
+					label += "-indirect"
+				}
+				if _, seen := hits[label]; !seen {
+					hits[label] = c03FreshHit{Label: label, Detail: fmt.Sprintf("%s %s %#x is reachable from the result and from an input", c03KindName(id.kind), id.typ, id.addr)}
+				}
+				break
+			}
+		}
+	}
+	if len(out.spans) > 0 {
+		var all []c03Span
+		for _, in := range ins {
+			all = append(all, in.spans...)
+		}
+		sort.Slice(all, func(i, j int) bool { return all[i].lo < all[j].lo })
+		// merge into disjoint intervals
+		var merged []c03Span
+		for _, sp := range all {
+			if n := len(merged); n > 0 && sp.lo < merged[n-1].hi {
+				if sp.hi > merged[n-1].hi {
+					merged[n-1].hi = sp.hi
+				}
+				continue
+			}
+			merged = append(merged, sp)
+		}
+		for _, sp := range out.spans {
+			k := sort.Search(len(merged), func(i int) bool { return merged[i].hi > sp.lo })
+			if k < len(merged) && merged[k].lo < sp.hi {
+				label := "slice"
+				if sp.held {
+					label += "-in-interface"
+				}
+				if _, seen := hits[label]; !seen {
+					hits[label] = c03FreshHit{Label: label, Detail: fmt.Sprintf("backing array of a %s [%#x,%#x) in the result overlaps a slice of an input", sp.typ, sp.lo, sp.hi)}
 				}
 			}
 		}
 	}
-	return
+	labels := make([]string, 0, len(hits))
+	for l := range hits {
+		labels = append(labels, l)
+	}
+	sort.Strings(labels)
+	res := make([]c03FreshHit, 0, len(labels))
+	for _, l := range labels {
+		res = append(res, hits[l])
+	}
+	return res
 }
